@@ -375,6 +375,12 @@ def check_tables(model, rep):
             ok = ok and (f"unit='{unit}'" in s or f'unit="{unit}"' in s or f"'{unit}')" in s)
         rep.decide(ok, 'C09.worm-table', fname, f'lookup does not return column {col!r} by pressure angle'
                    + (f' in {unit}' if unit else ''), loc=f'{mod}:{fn.lineno}')
+    # 'all four worm pressure angles', in any unit: the table lookups must not key on a converted raw number (C07's rule)
+    from sa.core import Report
+    from checks.c07 import exact_keys
+    dep = Report('C07')
+    exact_keys(model, dep)
+    rep.absorb(dep, {'C07.exact-key': 'C09.worm-table.key'})
     rep.require('C09.lewis-table', 38)
     rep.require('C09.worm-table', 6)
 
